@@ -159,7 +159,7 @@ def check_cfg(ctx, fx, cfg):
             HOLDERS[_cf["_adt"]] = "a named submit object (stands for one of the two submit closures; created in the channel constructors, R05.6)"
     # a named type standing in for one of the closures inside a strong handle (`struct ActorCall { tx, _force_tx }` implementing
     # `CallerFn<M>`, erased into `Caller`'s `Box<dyn CallerFn<M>>`): the handle's internals, alive exactly as long as the handle
-    HANDLE_TRAIT_MODULES = ("addr::caller::", "addr::sender::")
+    HANDLE_TRAIT_MODULES = ("addr::",)  # the handle types and their private helper traits / structs live in `addr` and its submodules
     handle_objects = set()
     for key_, ent_ in fx.dyn.items():
         if key_.startswith(tuple("dyn " + m_ for m_ in HANDLE_TRAIT_MODULES)):
